@@ -90,6 +90,18 @@ Theorem C08_source_subquery_table : forall call_ref tbl kcol pts q,
 Proof. exact subquery_table_init_model. Qed.
 Print Assumptions C08_source_subquery_table.
 
+(* ... and that dict, without the fold: no name twice; the names in the order of their first visible occurrence; the entry
+   of a name holds the position among the visible targets, and the datatype, of the LAST visible target carrying it *)
+Theorem C08_source_subquery_positions : forall ts,
+  NoDup (map fst (sub_columns ts)) /\
+  map fst (sub_columns ts) = fold_left names_step (Compile.visible ts) [] /\
+  forall n i dt, In (n, (i, dt)) (sub_columns ts) <->
+    exists t, nth_error (Compile.visible ts) i = Some t /\ Compile.ct_name t = Some n /\
+              dt = Compile.dtype (Compile.ct_expr t) /\
+              forall j' t', i < j' -> nth_error (Compile.visible ts) j' = Some t' -> Compile.ct_name t' <> Some n.
+Proof. exact sub_columns_spec. Qed.
+Print Assumptions C08_source_subquery_positions.
+
 (* SubqueryTable.__iter__: the rows of FROM (q over s) are what execute_query returns for the subquery, unchanged *)
 Theorem C08_source_subquery_iter : forall call_ref tbl kexec flds Q cols q s,
   ref_of refs "beanquery.query_execute.execute_query" = Some kexec ->
